@@ -274,7 +274,9 @@ theorem putSt_spec {s : St} (k : Key) (v : Val) (h : Inv0 s s.tick) :
     Inv0 (putSt s k v).1 (s.tick + 1) ∧ (putSt s k v).1.limit = s.limit ∧ (putSt s k v).1.tick = s.tick ∧
     (putSt s k v).1.ttl = s.ttl ∧ (putSt s k v).1.now = s.now := by
   by_cases hz : v.size = 0
-  · simp only [putSt, hz, if_true]; exact ⟨h.mono (by omega), by trivial, by trivial, by trivial, by trivial⟩
+  · simp only [putSt, hz, if_true]
+    obtain ⟨a, _, b, c, d, e, _⟩ := removeSt_spec k h
+    exact ⟨a.mono (by omega), b, c, d, e⟩
   · by_cases hbig : k.size + v.size > s.limit
     · simp only [putSt, hz, hbig, if_true, if_false]
       obtain ⟨a, _, b, c, d, e, _⟩ := removeSt_spec k h
@@ -392,12 +394,13 @@ theorem putSt_accept_q {s : St} {k : Key} {v : Val} (h : Inv0 s s.tick)
 
 theorem putSt_q_mem {s : St} {k : Key} {v : Val} (h : Inv0 s s.tick) {e' : Ent}
     (he : e' ∈ (putSt s k v).1.q) :
-    (v.size = 0 ∧ e' ∈ s.q) ∨ (v.size ≠ 0 ∧ ((e' ∈ s.q ∧ e'.key ≠ k) ∨ e' = newEnt s k v)) := by
+    (e' ∈ s.q ∧ e'.key ≠ k) ∨ (v.size ≠ 0 ∧ e' = newEnt s k v) := by
   by_cases hz : v.size = 0
-  · left; simp only [putSt, hz, if_true] at he; exact ⟨hz, he⟩
-  · right
-    refine ⟨hz, ?_⟩
-    by_cases hbig : k.size + v.size > s.limit
+  · left
+    simp only [putSt, hz, if_true] at he
+    rw [(removeSt_spec k h).2.1] at he
+    exact mem_removeKey.mp he
+  · by_cases hbig : k.size + v.size > s.limit
     · simp only [putSt, hz, hbig, if_true, if_false] at he
       rw [(removeSt_spec k h).2.1] at he
       left; exact mem_removeKey.mp he
@@ -405,7 +408,7 @@ theorem putSt_q_mem {s : St} {k : Key} {v : Val} (h : Inv0 s s.tick) {e' : Ent}
       rw [hq] at he
       rcases List.mem_append.mp he with he | he
       · left; exact mem_removeKey.mp (List.mem_of_mem_drop he)
-      · right; simpa using he
+      · right; exact ⟨hz, by simpa using he⟩
 
 theorem getSt_q_mem {s : St} {k : Key} (h : Inv0 s s.tick) {e' : Ent} (he : e' ∈ (getSt s k).1.q) :
     ∃ e ∈ s.q, core e = core e' := by
